@@ -618,7 +618,8 @@ class WassFam(Fam):
 
     def fit_kwargs(self, spec, data):
         kw = self.args(spec, data)[1]
-        if self.cls == "wass" and self.input_method == "generator":
+        explicit = spec.get("explicit_reference") and self.cls in ("wass", "sinkhorn") and self.method != "HeuristicLinearAlgebra"
+        if (self.cls == "wass" and self.input_method == "generator") or explicit:
             L = lib()
             np = L["np"]
             # generator input needs explicit references
@@ -628,6 +629,8 @@ class WassFam(Fam):
             if spec["params"]["metric"] == "cosine":
                 ref = ref / np.sqrt((ref ** 2).sum(axis=1, keepdims=True))
             kw = dict(kw, reference_vectors=ref)
+            if explicit:
+                kw["reference_distribution"] = np.full(ref.shape[0], 1.0 / ref.shape[0])
         return kw
 
     def width(self, est):
